@@ -3,7 +3,7 @@ documented option space, a deterministic small-scope sweep, and the stream
 of single-point corruptions."""
 import copy
 
-NAMES = ['a', 'web', 'cat1', 'x_y', 'w-1', 'A.b', 'zz', 'n0', 'Pool', 'b2']
+NAMES = ['a', 'web', 'cat1', 'x_y', 'w-1', 'A.b', 'zz', 'n0', 'Pool', 'b2', 'q', 'svc-2', 'M', 'k9', 'dd']
 
 PROCESS_NAMES_MULTI = [
     '%(program_name)s_%(process_num)02d', '%(process_num)d', 'p%(process_num)s',
